@@ -205,7 +205,7 @@ func init() {
 	// ------------------------------------------------------------------ C09
 	register(&Prop{
 		ID: "C09", Level: "exploration", QuickS: 25, ThoroughS: 420,
-		Rule:       "seeded sessions whose statements write rows over bool/int2/int4/int8/oid/float4/float8/text/varchar/bytea/uuid/date/timestamp/timestamptz columns with boundary and random values (min/max, +-0, NaN, +-Inf, empty and multi-byte strings, empty and NUL-containing bytea, zero UUID) in the Go representations a handler would use (native values, pointers, pgtype structs), text format (simple protocol) and per-column text/binary result formats (extended protocol), SQL NULL written as untyped nil, typed nil pointer or invalid pgtype value in any position; the same OID is encoded from different Go types in varying order within a connection; every DataRow is decoded by the independent codecs; non-trivial = at least one DataRow was produced and decoded; distinct = distinct case content hashes",
+		Rule:       "seeded sessions whose statements write rows over bool/int2/int4/int8/oid/float4/float8/text/varchar/bytea/uuid/date/timestamp/timestamptz columns with boundary and random values (min/max, +-0, NaN, +-Inf, empty and multi-byte strings, empty and NUL-containing bytea, zero UUID, text/bytea values of 4090-70000 bytes) in the Go representations a handler would use (native values, pointers, pgtype structs, and Go strings holding the text form of int4/int8/uuid values, which only the text format can encode), text format (simple protocol) and per-column text/binary result formats (extended protocol), SQL NULL written as untyped nil, typed nil pointer or invalid pgtype value in any position; the same OID is encoded from different Go types in varying order within a connection; every DataRow is decoded by the independent codecs; non-trivial = at least one DataRow was produced and decoded; distinct = distinct case content hashes",
 		Components: e1Components, Assumptions: commonAssumptions,
 		Gen: func(r *Rand, tier string) *Case {
 			if r.Chance(1, 10) {
@@ -214,6 +214,7 @@ func init() {
 				return genConcurrent(r, r.Range(2, 3), histOpts{simple: true, extended: true, binary: true, rich: true, typedNull: true, multi: true, maxUnits: 4}, 4096)
 			}
 			c := &Case{Server: ServerCfg{Limit: smallLimit(r)}}
+			r.Large = true
 			genHistory(r, c, histOpts{simple: true, extended: true, binary: true, rich: true, typedNull: true, multi: true, abuse: r.Chance(1, 3), maxUnits: units(tier, 6)})
 			return c
 		},
@@ -265,7 +266,7 @@ func init() {
 				return genConcurrent(r, r.Range(2, 4), histOpts{extended: true, closes: true, params: true, binary: true, unknownNames: true, maxUnits: units(tier, 6)}, 4096)
 			}
 			c := &Case{Server: ServerCfg{Limit: smallLimit(r)}}
-			genHistory(r, c, histOpts{extended: true, closes: true, params: true, binary: true, unknownNames: true, errs: r.Chance(1, 4), maxUnits: units(tier, 10)})
+			genHistory(r, c, histOpts{extended: true, closes: true, params: true, binary: true, unknownNames: true, errs: r.Bool(), maxUnits: units(tier, 10)})
 			if r.Chance(1, 4) {
 				// a second connection, served afterwards on the same server, refers to
 				// the names the first one defined without defining them itself: they
